@@ -745,6 +745,51 @@ def nhop_body_hash():
     return None
 
 
+def degenerate(rng, mesh):
+    """collapsed element (a hex used as a wedge, a quad as a triangle): one node
+    id repeated inside one connectivity row -> duplicate (node, element) pairs in
+    the incidence construction"""
+    t, rows = rng.choice(mesh['blocks'])
+    row = rng.choice(rows)[1]
+    ncorner = {'tet2': 4, 'hex2': 8}.get(t, len(row))
+    a, b_ = rng.sample(range(ncorner), 2)
+    row[a] = row[b_]
+    mesh['tags']['degenerate'] = True
+
+
+SWEEP_ARITY = {'line': 2, 'line2': 3, 'spring': 2, 'tri': 3, 'tri2': 6, 'quad': 4, 'quad2': 8,
+               'polygon': 5, 'tet': 4, 'tet2': 10, 'pyr': 5, 'pyr2': 13, 'prism': 6, 'prism2': 15,
+               'hex': 8, 'hex2': 20, 'hexprism': 12, 'polyhedron': 7, 'unknown': 4}
+
+
+def type_sweep_cases(rng, types=None):
+    """every element type name of ELEMENT_TYPES on a two-element mesh (connectivity
+    only), both order1_only values: the first-order table (`'2' in type`, tet2 -> 4,
+    hex2 -> 8, other second-order types raise) exhaustively through the public path"""
+    out = []
+    for t in (types or MODEL_TYPES):
+        a = SWEEP_ARITY[t]
+        share = rng.randint(1, max(1, a - 1))
+        ids = rng.sample(range(1, 40 * a), 2 * a - share + 1)
+        e1 = ids[:a]
+        e2 = ids[a - share:2 * a - share]
+        rng.shuffle(e2)
+        nodes = list(ids)
+        rng.shuffle(nodes)
+        eids = rng.sample(range(1, 100), 2)
+        mesh = {'nodes': [[n, k, 0, 0] for k, n in enumerate(nodes)],
+                'blocks': [[t, [[eids[0], e1], [eids[1], e2]]]],
+                'tags': {'kind': 'type-sweep:' + t, 'ids': 'sparse', 'components': 1, 'unref': 1,
+                         'node_order': 'shuffled', 'elem_order': 'shuffled', 'n_types': 1}}
+        if '2' in t and t not in ('tet2', 'hex2'):
+            mesh['tags']['malformed'] = 'second-order-type-without-first-order-rule'
+        qs = [{'kind': 'inc', 'order1': False}, {'kind': 'inc', 'order1': True},
+              {'kind': 'adj', 'nodal': True, 'order1': True, 'via': 'direct'},
+              {'kind': 'lap', 'nodal': False, 'order1': True}]
+        out.append({'mesh': mesh, 'queries': qs})
+    return out
+
+
 def gen_cases(ctx):
     n_mesh = 60 if ctx.tier == 'quick' else 450
     cases = []
@@ -755,6 +800,8 @@ def gen_cases(ctx):
         if kind is None and ctx.rng.random() < 0.15:
             kind = ctx.rng.choice(gen.NONCONFORMING)
         mesh = gen.gen_mesh(ctx.rng, kind=kind, max_nodes=mx)
+        if ctx.rng.random() < 0.12:
+            degenerate(ctx.rng, mesh)
         cases.append({'id': len(cases), 'mesh': mesh,
                       'queries': queries_for(ctx.rng, mesh, ctx.tier)})
     # same-object stream: the whole (shuffled) query sequence of every third mesh
@@ -786,6 +833,10 @@ def gen_cases(ctx):
     for c in big:
         c['id'] = len(cases)
         cases.append(c)
+    # every element type name, both order1_only values (first-order table)
+    for c in type_sweep_cases(ctx.rng):
+        c['id'] = len(cases)
+        cases.append(c)
     # hub stream: vertex degrees / multiplicities beyond the narrow integer widths
     for c in hub_cases(ctx.rng, ctx.tier):
         c['id'] = len(cases)
@@ -794,7 +845,7 @@ def gen_cases(ctx):
     # remove_useless_nodes) / the same queries again on ONE object; the model is
     # evaluated on the mesh as modified
     base = [c for c in cases if not c.get('shared') and not c.get('oracle_only')
-            and not is_big(c['mesh'])]
+            and not is_big(c['mesh']) and not c['mesh']['tags'].get('malformed')]
     for c in base[1::4]:
         h = history_case(ctx.rng, c)
         h['id'] = len(cases)
@@ -1140,6 +1191,7 @@ def main(ctx):
         ctx.count('n_types:' + str(len(c['mesh']['blocks'])))
         ctx.count('components:' + str(tg.get('components')))
         ctx.count('unreferenced_nodes:' + str(tg.get('unref')))
+        ctx.count('collapsed_element(repeated node in a row):' + str(bool(tg.get('degenerate'))))
         ctx.count('object:' + ('one-shared-for-the-sequence' if c.get('shared') else 'fresh-per-query'))
         ctx.count('node_order:' + str(tg.get('node_order')))
         ctx.count('elem_order:' + str(tg.get('elem_order')))
